@@ -1612,10 +1612,22 @@ where
             }
             AttributeAction::SetVr(new_vr) => {
                 // only applies if the attribute exists
-                if let Some(e) = self.entries.remove(&tag) {
-                    let (header, value) = e.into_parts();
-                    let e = DataElement::new(header.tag, new_vr, value);
-                    self.put(e);
+                // and the new VR makes sense for the kind of value it holds:
+                // data set sequences are always SQ, pixel data fragments always OB,
+                // and nothing else can be SQ,
+                // otherwise the element could no longer be encoded
+                let applicable = match self.entries.get(&tag).map(|e| e.value()) {
+                    Some(Value::Sequence(..)) => new_vr == VR::SQ,
+                    Some(Value::PixelSequence(..)) => new_vr == VR::OB,
+                    Some(Value::Primitive(..)) => new_vr != VR::SQ,
+                    None => false,
+                };
+                if applicable {
+                    if let Some(e) = self.entries.remove(&tag) {
+                        let (header, value) = e.into_parts();
+                        let e = DataElement::new(header.tag, new_vr, value);
+                        self.put(e);
+                    }
                 }
                 Ok(())
             }
